@@ -16,3 +16,4 @@ CONSTANTS
   REORIENT = TRUE
   BIGSET = FALSE
   SAMPLE = 31
+  STREAMLEN = 0
